@@ -31,3 +31,20 @@ package data
 //@ func data.consumeBlockSizes
 //@ loop 0 invariant 0 <= i
 //@ loop 0 decreases int(count) - i
+
+// ---------------------------------------------------------------------------------------------
+// C09 (encode side): the nested timestamp message is as long as its length prefix says, and a
+// mode equal to the type's default is the only mode that is elided.
+//@ props C09
+
+//@ func data.AppendEncodeUnixTime
+//@ ensures encoded-length: len(result) == len(enc) + sizeTag(1) + sizeVarint(uint64(node.Seconds.x)) + ite(node.FractionalNanoseconds.m == 2, sizeTag(2) + 4, 0)
+
+//@ func data.AppendEncodeUnixFSData
+//@ at call data.AppendEncodeUnixTime#1 assert mtime-length-prefix-matches-nested-message: size == sizeTag(1) + sizeVarint(uint64(mtime.Seconds.x)) + ite(mtime.FractionalNanoseconds.m == 2, sizeTag(2) + 4, 0)
+
+//@ func (*data._UnixFSData).Permissions
+//@ ensures low-twelve-bits-or-default: (u.Mode.m == 2 ==> result == int(u.Mode.v.x & 4095)) && (u.Mode.m != 2 ==> result == ite(u.DataType.x == 2, 420, ite(u.DataType.x == 1, 493, ite(u.DataType.x == 5, 493, 0))))
+
+//@ func data.DefaultPermissions
+//@ ensures by-type: result == ite(u.DataType.x == 2, 420, ite(u.DataType.x == 1, 493, ite(u.DataType.x == 5, 493, 0)))
